@@ -10,6 +10,9 @@ fn main() {
   if args.len() < 3 {
     usage();
   }
+  if args[1] == "hashof" {
+    std::process::exit(vcheck::props::c20::hashof_main());
+  }
   let id = args[1].to_uppercase();
   let verif_dir = std::env::var("VERIF_DIR").unwrap_or_else(|_| "/verif".to_string());
   let seed: u64 = std::env::var("VERIF_SEED").ok().and_then(|s| s.parse().ok()).unwrap_or(1);
